@@ -11,7 +11,7 @@ out=/verif/seeded/$sid
 mkdir -p $out
 cd $wt || exit 2
 export CARGO_TARGET_DIR=$wt/target CARGO_NET_OFFLINE=true
-git diff -- $paths > $out/patch.diff
+if [ -n "${PATCH_FILE:-}" ]; then cp "$PATCH_FILE" $out/patch.diff; else git diff -- $paths > $out/patch.diff; fi
 # tracked files changed only for the demonstration (e.g. a `mod` line registering a new test)
 git diff > /tmp/all-$$.diff
 if ! cmp -s /tmp/all-$$.diff $out/patch.diff; then git diff -- $(git diff --name-only | grep -v -x -F "$(git diff --name-only -- $paths)") > $out/demo/../demo-tracked.diff 2>/dev/null; fi
